@@ -52,8 +52,15 @@ pub struct Outcome {
 
 fn init_text(i: &(usize, usize, usize)) -> String { format!("init,{},{},{}", i.0, i.1, i.2) }
 
+/// `<producers>` part of the signature `sched:<producers>:<violated invariant>`; runs that start the
+/// ring indices just below the usize wrap-around with a capacity that does not divide 2^64 are a
+/// class of their own (known finding: the slot index `tail % capacity` jumps at the wrap).
+pub fn sig_tag(i: &(usize, usize, usize)) -> String {
+    if !i.0.is_power_of_two() && i.1 >= usize::MAX - 4096 { "wrap-npot".into() } else { i.2.to_string() }
+}
+
 /// Property oracles on one finished schedule (independent of the model).
-fn oracles(case: Case, nprod_sig: usize, fails: &mut Vec<(String, String)>) {
+fn oracles(case: Case, nprod_sig: &str, fails: &mut Vec<(String, String)>) {
     let sig = |what: &str| format!("sched:{}:{}", nprod_sig, what);
     let recvd = case.received();
     let mut last: std::collections::BTreeMap<u64, u64> = Default::default();
@@ -102,7 +109,7 @@ pub fn exec_labels(init: (usize, usize, usize), labels: &[Label]) -> Outcome {
     }
     toks.push(case.end_token());
     let mut fails = vec![];
-    oracles(case, init.2, &mut fails);
+    oracles(case, &sig_tag(&init), &mut fails);
     Outcome { input: format!("{} {}", init_text(&init), labels.iter().map(|l| l.text()).collect::<Vec<_>>().join(" ")),
               output: toks.join(" "), fails, preemptions: pre, steps: labels.len(), blocked_tokens: blocked }
 }
@@ -146,8 +153,8 @@ fn exec_program(prog: &Program, choose: &mut dyn FnMut(usize, &[Label], &[Label]
     let mut fails = vec![];
     // a program that cannot finish: some thread is still inside an operation and nothing is enabled
     let unfinished = prog.tids().iter().any(|t| matches!(case.state(*t), WState::Parked(_)));
-    if unfinished { fails.push((format!("sched:{}:deadlock", prog.init.2), "threads parked at blocking points, none enabled".into())); }
-    oracles(case, prog.init.2, &mut fails);
+    if unfinished { fails.push((format!("sched:{}:deadlock", sig_tag(&prog.init)), "threads parked at blocking points, none enabled".into())); }
+    oracles(case, &sig_tag(&prog.init), &mut fails);
     Outcome { input: format!("{} {}", init_text(&prog.init), labels.iter().map(|l| l.text()).collect::<Vec<_>>().join(" ")),
               output: toks.join(" "), fails, preemptions: pre, steps: labels.len(), blocked_tokens: blocked_n }
 }
@@ -233,6 +240,8 @@ pub fn programs(thorough: bool, rng: &mut Rng) -> Vec<(Program, usize, usize)> {
     v.push((p("3p-mixed", (3, 0, 3), vec![vec![Op::Send(vec![1, 2])], vec![Op::TrySend(1), Op::DropSrc], vec![s1(1), s1(2)]], vec![Op::Recv, Op::Recv], vec![Op::Stop]), 0, 300 * k));
     // index wrap-around of the ring (power-of-two capacity: harmless; see NOTES for capacity 3)
     v.push((p("wrap-cap2", (2, usize::MAX - 1, 1), vec![vec![Op::Send(vec![1, 2, 3])]], vec![Op::Recv, Op::Recv], vec![]), 0, 100 * k));
+    // KNOWN FINDING (wrap-npot): capacity 3 across the index wrap-around — one sequential schedule
+    v.push((p("wrap-npot-cap3", (3, usize::MAX - 2, 1), vec![vec![s1(1), s1(2), s1(3), s1(4)]], vec![Op::Recv, Op::Recv, Op::Recv, Op::Recv], vec![]), 0, 0));
     // random programs
     let nrand = if thorough { 120 } else { 20 };
     for i in 0..nrand {
@@ -286,6 +295,15 @@ fn child_main(args: &Args) {
         let (prog, exh, nrand) = &progs[idx];
         let _ = writeln!(out, "BEGIN program {} {:?}", prog.name, prog);
         let _ = out.flush();
+        if prog.name == "wrap-npot-cap3" {
+            let seq = "p0:s1 p0 p0 p0 p0 p0 p0 p0 p0:s2 p0 p0 p0 p0 p0 p0 p0 p0:s3 p0 p0 p0 p0 p0 p0 p0 c:r c c c c c c c c \
+                       p0:s4 p0 p0 p0 p0 p0 p0 p0 c:r c c c c c c c c c:r c c c c c c c c c:r c c c c c c c c";
+            let labels: Vec<Label> = seq.split_whitespace().map(|t| Label::parse(t).unwrap()).collect();
+            let input = format!("{} {}", init_text(&prog.init), labels.iter().map(|l| l.text()).collect::<Vec<_>>().join(" "));
+            let _ = writeln!(out, "BEGIN {input}");
+            let _ = out.flush();
+            emit(exec_labels(prog.init, &labels), &mut out);
+        }
         if *exh > 0 {
             let (n, complete) = explore_exhaustive(prog, *exh, &mut |o| emit(o, &mut out));
             let _ = writeln!(out, "COUNT exhaustive_schedules:{} {}", prog.name, n);
@@ -399,7 +417,7 @@ pub fn run(args: &Args) {
             else if let Some(c) = l.strip_prefix("FAIL ") { let f: Vec<&str> = c.split('\t').collect(); println!("ORACLE-FAIL {} {}", f[0], f.get(2).unwrap_or(&"")); }
             else { println!("{l}"); }
         }
-        if !res.ok { println!("ORACLE-FAIL crash child status {}", res.status); }
+        if !res.ok { println!("ORACLE-FAIL sched:{}:crash-{}", parse_case(case).map(|c| sig_tag(&c.0)).unwrap_or_default(), res.status); }
         return;
     }
     let mut run = Run::new("c20", &args.out);
@@ -414,7 +432,7 @@ pub fn run(args: &Args) {
             let hs: Vec<_> = (idx..hi).map(|i| sc.spawn(move || (i, run_child(&format!("prog:{i}"), args, 900)))).collect();
             hs.into_iter().map(|h| h.join().unwrap()).collect()
         });
-        for (i, res) in results { absorb(&mut run, &res, &progs[i].0.init.2.to_string()); }
+        for (i, res) in results { absorb(&mut run, &res, &sig_tag(&progs[i].0.init)); }
         idx = hi;
     }
     stress::parent(&mut run, args);
